@@ -555,7 +555,12 @@ func (fr *frame) specCall(st *state, ct *FuncContract, key, anchor string, pos t
 		}
 	}
 	pre := st.clone()
-	fc.havocFramedArgs(st, pre, eff, fr.ownParam)
+	argOf := fr.ownParam
+	if fr.calleeArgs != nil {
+		// effect classes of an external callee's own contract are relative to the callee's parameters
+		argOf = fr.calleeArgs
+	}
+	fc.havocFramedArgs(st, pre, eff, argOf)
 	fr.bumpAlloc(st)
 	res := fr.freshResults(st, sig, "dyn")
 	if ct != nil {
